@@ -15,8 +15,8 @@
     control lists fixed during a request the cache is invisible (first
     group of theorems); with either replaced between steps the reading is
     explicit in [served_sound] (C06_resume_sound). *)
-From RsM Require Import Lib.MachInt Model.Acl Model.AclSpec Model.Im Model.ImSpec.
-From RsM Require Import Proofs.ImExpand Proofs.ImRun Proofs.ImSound Proofs.ImTimed
+From RsM Require Import Lib.MachInt Model.Acl Model.AclSpec Model.Im Model.ImSpec Model.ImEvents.
+From RsM Require Import Proofs.ImEventFacts Proofs.ImExpand Proofs.ImRun Proofs.ImSound Proofs.ImTimed
   Proofs.ImTheorems Proofs.ImMonitor Proofs.ImResume Proofs.ImChunked.
 Open Scope N_scope.
 
@@ -298,12 +298,97 @@ Theorem C06_chunked_monitor_sound :
 Proof. exact holds_chunked_sound. Qed.
 Print Assumptions C06_chunked_monitor_sound.
 
+(** ** Events.  What a read (or the priming report of a subscription)
+    with event paths reports is exactly [permitted_events]: the queued
+    events that are visible to the requester's fabric, come from an element
+    that exists and that the requester may read, and match a requested
+    path - in queue order; concrete paths get the status of the decision
+    table; the rest is omitted silently. *)
+Theorem C06_event_exact :
+  forall (fabs : list fabric) (who : accessor) (nd : node),
+  wf_fabrics fabs = true -> wf_node_events nd = true ->
+  forall (paths : list gpath) (queue : list qevent),
+  read_events fabs who nd paths queue = spec_read_events nd fabs who paths queue.
+Proof. exact read_events_exact. Qed.
+Print Assumptions C06_event_exact.
+
+Theorem C06_event_wildcard_exact :
+  forall (fabs : list fabric) (who : accessor) (nd : node),
+  wf_fabrics fabs = true -> wf_node_events nd = true ->
+  forall (p : gpath) (queue : list qevent),
+  is_wildcard p = true ->
+  read_events fabs who nd [p] queue
+  = RespItems (map event_out (permitted_events nd fabs who [p] queue)) [].
+Proof. exact event_wildcard_exact. Qed.
+Print Assumptions C06_event_wildcard_exact.
+
+Theorem C06_event_concrete_status :
+  forall (fabs : list fabric) (who : accessor) (nd : node),
+  wf_fabrics fabs = true -> wf_node_events nd = true ->
+  forall (e c id : N) (queue : list qevent),
+  read_events fabs who nd [mkPath (Some e) (Some c) (Some id)] queue
+  = RespItems ((match event_path_status nd fabs who e c id with
+                | Some s => [OStatus (mkPath (Some e) (Some c) (Some id)) None s]
+                | None => []
+                end)
+               ++ map event_out (permitted_events nd fabs who [mkPath (Some e) (Some c) (Some id)] queue)) [].
+Proof. exact event_concrete_status. Qed.
+Print Assumptions C06_event_concrete_status.
+
+Theorem C06_event_subscribe_exact :
+  forall (fabs : list fabric) (who : accessor) (nd : node),
+  wf_fabrics fabs = true -> wf_node_events nd = true ->
+  forall (paths : list gpath) (queue : list qevent),
+  subscribe_events fabs who nd paths queue = spec_subscribe_events nd fabs who paths queue.
+Proof. exact subscribe_events_exact. Qed.
+Print Assumptions C06_event_subscribe_exact.
+
+(** an event that names a fabric is reported to that fabric only (no hypothesis) *)
+Theorem C06_event_fabric_sensitive :
+  forall (fabs : list fabric) (who : accessor) (nd : node) (paths : list gpath)
+         (queue : list qevent) (ev : qevent) (f : N),
+  In ev (filter (event_reported fabs who nd paths) queue) -> qe_fab ev = Some f -> f = a_fab who.
+Proof. exact event_fabric_sensitive. Qed.
+Print Assumptions C06_event_fabric_sensitive.
+
+Theorem C06_event_source_permitted :
+  forall (nd : node) (fabs : list fabric) (who : accessor) (paths : list gpath)
+         (queue : list qevent) (ev : qevent),
+  In ev (permitted_events nd fabs who paths queue) ->
+  In ev queue /\ event_visible who ev = true
+  /\ (exists t, event_source nd ev = Some t /\ event_granted fabs who t = true)
+  /\ exists p, In p paths /\ event_matches p ev = true.
+Proof. exact permitted_event_source. Qed.
+Print Assumptions C06_event_source_permitted.
+
+Theorem C06_event_monitor_sound :
+  forall (subscribe : bool) (who : accessor) (nd : node) (fabs : list fabric)
+         (paths : list gpath) (queue : list qevent) (resp : imresp),
+  wf_node_events nd = true -> wf_fabrics fabs = true ->
+  holds_events subscribe who nd fabs paths queue resp = true ->
+  resp = if subscribe then spec_subscribe_events nd fabs who paths queue
+         else spec_read_events nd fabs who paths queue.
+Proof. exact holds_events_sound. Qed.
+Print Assumptions C06_event_monitor_sound.
+
+(** ** A group requester reaches only the endpoints of its group: whatever
+    a request serves lies on an endpoint that is reachable for the requester
+    (C05: for a group requester, a member endpoint of its group). *)
+Theorem C06_group_members_only :
+  forall (nd : node) (fabs : list fabric) (who : accessor) (op : operation) (timed : bool)
+         (flt : N -> N -> N -> bool) (items : list item) (e c l : N) (tag : option N),
+  In (OData e c l tag) (request_spec nd fabs who op timed flt items) ->
+  spec_endpoint fabs who e = true.
+Proof. exact group_members_only. Qed.
+Print Assumptions C06_group_members_only.
+
 (** ** Non-vacuity: the hypotheses are satisfiable and every kind of
     outcome occurs (evaluated inside Coq on the model). *)
 Definition ex_node : node :=
   [mkEndpoint 0 [22] [mkCluster 6 [mkLeaf 0 17 true; mkLeaf 1 57 true; mkLeaf 2 313 true; mkLeaf 3 24 true]
-                                  [mkLeaf 0 46 true; mkLeaf 1 302 true; mkLeaf 2 104 true]];
-   mkEndpoint 1 [] [mkCluster 6 [mkLeaf 0 17 true] []]].
+                                  [mkLeaf 0 46 true; mkLeaf 1 302 true; mkLeaf 2 104 true]
+                                  [mkLeaf 0 17 true; mkLeaf 1 24 true; mkLeaf 2 145 true]];
+   mkEndpoint 1 [] [mkCluster 6 [mkLeaf 0 17 true] [] [mkLeaf 0 17 true]]].
 Definition ex_manager : list fabric := [mkFabric 1 [mkEntry 7 ACase (Some [112233]) None (Some 1)] []].
 Definition ex_admin : list fabric := [mkFabric 1 [mkEntry 15 ACase (Some [112233]) None (Some 1)] []].
 Definition ex_who : accessor := for_session (SCase 1 [0; 0; 0]) (Some 112233) false.
@@ -399,4 +484,29 @@ Example C06_ex_chunked_expiry :
     [mkChunk true 0 [ex_it (Some 0) (Some 6) (Some 2)]; mkChunk true 400 [ex_it (Some 0) (Some 6) (Some 2)];
      mkChunk true 400 [ex_it (Some 0) (Some 6) (Some 1)]]
   = [RespItems [OData 0 6 2 None] [HWrite 0 6 2 1]; RespStatus STimeout].
+Proof. vm_compute. reflexivity. Qed.
+
+(** events: event 1 of cluster 6 needs Administer, event 2 is fabric-sensitive; a Manage requester of
+    fabric 1 reading everything sees its own and the fabric-less events it may read *)
+Definition ex_queue : list qevent :=
+  [mkQEvent 0 6 0 None; mkQEvent 0 6 1 None; mkQEvent 0 6 2 (Some 1); mkQEvent 0 6 2 (Some 2);
+   mkQEvent 1 6 0 None; mkQEvent 7 6 0 None].
+
+Example C06_ex_events :
+  wf_node_events ex_node = true
+  /\ read_events ex_manager ex_who ex_node [mkPath None None None; ex_p 0 6 1; ex_p 0 9 0; ex_p 0 6 9] ex_queue
+     = RespItems [OStatus (ex_p 0 6 1) None SUnsupportedAccess; OStatus (ex_p 0 9 0) None SUnsupportedCluster;
+                  OData 0 6 0 None; OData 0 6 2 (Some 1); OData 1 6 0 None] []
+  /\ subscribe_events ex_manager ex_who ex_node [mkPath None None None; ex_p 0 6 9] ex_queue = RespStatus SInvalidAction.
+Proof. vm_compute. repeat split. Qed.
+
+(** a group requester (group 7 with member endpoint 1) invoking command 0 of cluster 6 on every endpoint *)
+Definition ex_group_fabs : list fabric :=
+  [mkFabric 1 [mkEntry 3 AGroup (Some [7]) None (Some 1)] [mkGroup 7 [1] None]].
+Definition ex_group_node : node :=
+  [mkEndpoint 0 [] [mkCluster 6 [] [mkLeaf 0 46 true] []]; mkEndpoint 1 [] [mkCluster 6 [] [mkLeaf 0 46 true] []]].
+Example C06_ex_group :
+  im_handle 30 4 (for_session (SGroup 1 7) None false) (mkCfg ex_group_node ex_group_fabs) []
+    (mkReqst None 0 Invoke false false [mkItem (mkPath None (Some 6) (Some 0)) None])
+  = RespItems [OData 1 6 0 None] [HInvoke 1 6 0 1].
 Proof. vm_compute. reflexivity. Qed.
